@@ -32,4 +32,10 @@ theorem C09_S_adjust (src dst : Subdir) (mf : MFlags) (h : Proofs.MFlags.Valid m
     msgflags src dst mf = some (Spec.flagSuffix (Spec.adjustSeen (src == .new) (dst == .new) (Proofs.lettersOf mf))) :=
   Proofs.msgflags_eq_spec src dst mf h
 
+/-! Non-vacuity: `1.host:2,FS` parses to {F, S}; {F, S, a} is written as `:2,FSa`. -/
+example : Model.flagsParse [49, 46, 104, 111, 115, 116, 58, 50, 44, 70, 83] = some ⟨2 ^ 5 + 2 ^ 18, 0⟩ := by
+  decide
+
+example : Model.flagsStr ⟨2 ^ 5 + 2 ^ 18, 1⟩ 64 = some [58, 50, 44, 70, 83, 97] := by decide
+
 end Mdsort.Props
